@@ -5,6 +5,22 @@ import json, os, subprocess
 ROOT = os.path.dirname(os.path.dirname(os.path.abspath(__file__)))
 
 CLAIMED = {
+ "C01": dict(
+   technique="bounded exhaustive enumeration of inputs (token strings, typed argument tuples, one-edit corpus neighbours, byte strings, nesting depths/widths) executed on the real compiler; crash/hang/panic oracle with subprocess isolation",
+   text="Stateless exhaustive exploration of the real compiler over finite input spaces: every token string of length <=2 (thorough <=3; <=3/<=4 at top level) over a 46-token alphabet in 22 syntactic contexts x 3 syntaxes; every built-in x every argument tuple (arity <=2 over 40 values, arity 3 over 8/16 values, named and splat forms); operators, calc family, hex-escape boundaries and 52 syntactic positions x the value universe; every single-token deletion and every token-boundary prefix of the 3.4k golden-corpus inputs (thorough: every single insertion/substitution); entry and imported files made of boundary byte strings; 18 nesting constructs and 15 width pumps in isolated processes. Each case must end in Ok or a structured error that converts to the public kind and renders in both modes; panic, abort, or no progress for 20 s is a violation.",
+   note="Small-scope hypothesis: inputs outside the alphabets/bounds are not covered. Non-termination is decided by a wall-clock limit (20 s in-process, 10 s for isolated re-runs of listed findings). Corpus inputs with @while or possible recursion are only run unmodified (an edit can make their loops unbounded, which the property excludes). Known open findings: stack overflow at nesting depth >= 1024..16384, one @extend blow-up.",
+   design="§3 C01"),
+ "C08": dict(
+   technique="complete product enumeration of unit pairs x operations x magnitudes, compared with a reference table of exact CSS ratios; algebraic coherence laws checked on observed values",
+   text="All 36^2 ordered unit pairs (34 known units, an unknown unit, unitless) x 11 operations x 4x4 magnitudes are compiled and compared with a reference built from the ratios in the property text (result value, result unit, or error); all unit triples inside each dimension class are checked for round-trip identity and transitivity on observed outputs; all ordered pairs of compound units (<=2 numerator, <=1 (thorough 2) denominator factors over 6 units) are checked for compatibility, quotient and sum, and every compound shape for non-emittability.",
+   note="Numeric agreement is judged within 2e-10 absolute + 1e-11 relative (10-digit output). `%` where the quotient is within 1e-9 of an integer, and min/max between unitless and unit-bearing numbers, are skipped as unspecified. Open findings: compound units are compared structurally, never converted.",
+   design="§3 C08"),
+ "C15": dict(
+   technique="complete enumeration of named and short-hex colours and an RGB lattice (thorough: all 2^24 colours, looped inside the compiled program), algebraic laws plus reference colour math",
+   text="All 148 named colours against an independent CSS table and all their spellings in compressed output; all 4096 #rgb and 65536 #rgba literals against long and functional spellings; a 33^3 lattice, two full cube faces and one full slice (thorough: the whole 2^24 cube) under 23 laws per colour (channel integrity, HSL and HWB accessor round trips, involutions, by-zero identities, mix 0/100, opacity, spellings); accessors and hsl()/hwb() constructors against the CSS conversion formulas; 27 call shapes with arguments at, inside and just outside their legal ranges (range invariant); adjust/scale/change-color on RGB channels against the documented formulas.",
+   note="`==` on colours is the implementation's own (cross-checked by channel accessors). Reference formulas are f64 with tolerance 1e-6, and +-1 channel step is accepted only at exact rounding ties. Alpha is sampled on 16 steps.",
+   design="§3 C15"),
+
  "C17": dict(
    technique="explicit enumeration of all query pairs/triples over a 63-query alphabet; truth-table oracle over all 24 media environments, every case executed on the implementation",
    text="Bounded exhaustive model checking of the media-merge function through the public API: every ordered pair (thorough: every ordered triple and every 2-list x single in both nesting orders) of the 63-query alphabet is compiled, the emitted @media structure is read back by an independent reader and evaluated in all 24 media environments against the conjunction of the source queries. The alphabet covers every branch of MediaQuery::merge (type-less, all, equal/different types, not/only/no modifier, subset/non-subset feature sets).",
